@@ -32,6 +32,10 @@ pub struct Case {
     /// accepts it): single-shot and composed forms must still agree
     #[serde(default)]
     pub odd_identity: bool,
+    /// the ERROR side of the equivalence: recipient keys that make encapsulation fail (X25519 small order) through
+    /// all four sealing forms, and the export-only AEAD (whose seal/open forms panic) through all eight forms
+    #[serde(default)]
+    pub errors: bool,
 }
 
 pub struct C14;
@@ -42,7 +46,7 @@ impl Part for C14 {
         "E1-single-shot-equivalence".into()
     }
     fn rule(&self) -> String {
-        "36 suites x 4 modes x info shapes x (pt, aad) shapes: single_shot_seal* with RNG script rho == setup_sender(rho) then one seal* (enc, ct, tag bytes and the RNG draw log equal, and equal to R1); single_shot_open* == setup_receiver then one open* on the valid message, on every corruption class (bit flips, truncations to every length < Nt+2, extension, wrong aad), and - X25519 - on the 14 small-order encapsulated keys combined with valid, short and empty ciphertexts: same Ok bytes or the same error; seal = in-place ciphertext || tag; open(ct||tag) and open_in_place_detached(ct, tag) agree on acceptance for every split; non-trivial = every case".into()
+        "36 suites x 4 modes x info shapes x (pt, aad) shapes: single_shot_seal* with RNG script rho == setup_sender(rho) then one seal* (enc, ct, tag bytes and the RNG draw log equal, and equal to R1); single_shot_open* == setup_receiver then one open* on the valid message, on every corruption class (bit flips, truncations to every length < Nt+2, extension, wrong aad), and - X25519 - on the 14 small-order encapsulated keys combined with valid, short and empty ciphertexts: same Ok bytes or the same error; seal = in-place ciphertext || tag; open(ct||tag) and open_in_place_detached(ct, tag) agree on acceptance for every split; the error side: all 14 small-order X25519 recipient keys through the four sealing forms (same EncapError) and as encapsulated keys through the four opening forms, and the 12 export-only suites through all eight forms (same panic / same error as the composed path); non-trivial = every case".into()
     }
     fn bound(&self, cfg: &Cfg) -> String {
         if cfg.tier.thorough() { "36 suites x 4 modes x 2 info lengths x {0,1,17,64}^2 message shapes".into() } else { "36 suites x 4 modes x 1 info length x 6 message shapes".into() }
@@ -63,21 +67,29 @@ impl Part for C14 {
                     let shapes_first = shapes[0];
                     for (pt_len, aad_len) in shapes {
                         tag += 1;
-                        v.push(Case { suite, mode, info_len, pt_len, aad_len, tag, boundary: false, empty_bundle: false, sequence: false, odd_identity: false });
+                        v.push(Case { suite, mode, info_len, pt_len, aad_len, tag, boundary: false, empty_bundle: false, sequence: false, odd_identity: false, errors: false });
                         if (pt_len, aad_len) == shapes_first {
-                            v.push(Case { suite, mode, info_len, pt_len: 9, aad_len: 1, tag, boundary: false, empty_bundle: false, sequence: true, odd_identity: false });
+                            v.push(Case { suite, mode, info_len, pt_len: 9, aad_len: 1, tag, boundary: false, empty_bundle: false, sequence: true, odd_identity: false, errors: false });
                             if mode.has_auth() {
-                                v.push(Case { suite, mode, info_len, pt_len: 9, aad_len: 1, tag, boundary: false, empty_bundle: false, sequence: false, odd_identity: true });
+                                v.push(Case { suite, mode, info_len, pt_len: 9, aad_len: 1, tag, boundary: false, empty_bundle: false, sequence: false, odd_identity: true, errors: false });
                             }
                         }
                         if mode.has_psk() && (pt_len, aad_len) == shapes_first {
                             // the empty bundle is a legal PSK-mode input of this crate (C15)
-                            v.push(Case { suite, mode, info_len, pt_len: 7, aad_len: 2, tag, boundary: false, empty_bundle: true, sequence: false, odd_identity: false });
+                            v.push(Case { suite, mode, info_len, pt_len: 7, aad_len: 2, tag, boundary: false, empty_bundle: true, sequence: false, odd_identity: false, errors: false });
                         }
                         if mode == Mode::Base && (pt_len, aad_len) == shapes_first && (t || suite.kdf == suite.kem.kdf()) {
-                            v.push(Case { suite, mode, info_len, pt_len: 5, aad_len: 3, tag, boundary: true, empty_bundle: false, sequence: false, odd_identity: false });
+                            v.push(Case { suite, mode, info_len, pt_len: 5, aad_len: 3, tag, boundary: true, empty_bundle: false, sequence: false, odd_identity: false, errors: false });
                         }
                     }
+                }
+            }
+        }
+        for suite in crate::suites::all_suites() {
+            if suite.kem == Kem::X25519 || !suite.aead.can_seal() {
+                for mode in MODES {
+                    tag += 1;
+                    v.push(Case { suite, mode, info_len: 6, pt_len: 11, aad_len: 2, tag, boundary: false, empty_bundle: false, sequence: false, odd_identity: false, errors: true });
                 }
             }
         }
@@ -86,7 +98,11 @@ impl Part for C14 {
     fn run(&self, cfg: &Cfg, c: &Case) -> CaseOut {
         let mut out = CaseOut::new();
         out.nontrivial = true;
-        out.outcome = format!("{:?}/{}", c.mode, c.suite.aead.name());
+        out.outcome = format!("{:?}/{}{}", c.mode, c.suite.aead.name(), if c.errors { "/errors" } else { "" });
+        if c.errors {
+            error_case(&mut out, cfg, c);
+            return out;
+        }
         let ops = suite_ops(c.suite);
         let k = keys(c.suite.kem, c.tag, cfg.seed);
         let info = bytes(Fill::Mix, c.info_len, 10, cfg.seed);
@@ -291,9 +307,108 @@ fn sequence_case(out: &mut CaseOut, c: &Case, ops: &dyn crate::suites::SuiteOps,
             out.fail(format!("message #{} (|pt| = {}) of a sequence: open() gives {}, open_in_place_detached() gives {}, both should return the plaintext", i, pl, a.class(), b.class()));
             return;
         }
-        if ra.seq_state() != rb.seq_state() {
+        if crate::suites::HOOKS && ra.seq_state() != rb.seq_state() {
             out.fail(format!("after message #{} (|pt| = {}) the allocating receiver is at {:?} and the in-place receiver at {:?}", i, pl, ra.seq_state(), rb.seq_state()));
             return;
+        }
+    }
+}
+
+/// Ok(bytes) / Err(kind) / "panic" - the observable class of a call, with the bytes where there are any
+fn norm<T: Clone + Into<Vec<u8>>>(o: &Obs<T>) -> String {
+    match o {
+        Obs::Ok(v) => format!("Ok({})", crate::obs::hx(&v.clone().into())),
+        Obs::Err(e) => format!("Err({:?})", e),
+        Obs::Pre(e) => format!("Pre({:?})", e),
+        Obs::Panic(_) => "panic".into(),
+    }
+}
+
+/// single-shot == composed on the error side (see `Case::errors`)
+fn error_case(out: &mut CaseOut, cfg: &Cfg, c: &Case) {
+    let ops = suite_ops(c.suite);
+    let k = keys(c.suite.kem, c.tag, cfg.seed);
+    let info = bytes(Fill::Mix, c.info_len, 10, cfg.seed);
+    let m = mode_spec(c.mode, &k, &bytes(Fill::Mix, 32, 11, cfg.seed), &bytes(Fill::Mix, 22, 12, cfg.seed));
+    let pt = bytes(Fill::Mix, c.pt_len, 140, cfg.seed);
+    let aad = bytes(Fill::Mix, c.aad_len, 141, cfg.seed);
+    let nt = c.suite.aead.nt().max(16);
+    let mut pks: Vec<(String, Vec<u8>)> = vec![("valid recipient key".into(), k.pk_r.clone())];
+    if c.suite.kem == Kem::X25519 {
+        for (i, e) in super::c10::small_order_encodings().into_iter().enumerate() {
+            pks.push((format!("small-order key #{}", i), e));
+        }
+    }
+    let expect_encap_err = |name: &str| name != "valid recipient key";
+    for (name, pk) in &pks {
+        // ---- the four sealing forms ----
+        let composed = match ops.setup_sender(&m, pk, &info, &mut ScriptRng::new(&k.ikm_e)) {
+            Obs::Ok((enc, mut s)) => s.seal(&pt, &aad).map(|ct| [enc.clone(), ct].concat()),
+            Obs::Err(e) => Obs::Err(e),
+            Obs::Pre(e) => Obs::Pre(e),
+            Obs::Panic(p) => Obs::Panic(p),
+        };
+        let single = ops.single_shot_seal(&m, pk, &info, &pt, &aad, &mut ScriptRng::new(&k.ikm_e)).map(|(enc, ct)| [enc, ct].concat());
+        let composed_ip = match ops.setup_sender(&m, pk, &info, &mut ScriptRng::new(&k.ikm_e)) {
+            Obs::Ok((enc, mut s)) => {
+                let mut b = pt.clone();
+                s.seal_ip(&mut b, &aad).map(|t| [enc.clone(), b.clone(), t].concat())
+            }
+            Obs::Err(e) => Obs::Err(e),
+            Obs::Pre(e) => Obs::Pre(e),
+            Obs::Panic(p) => Obs::Panic(p),
+        };
+        let mut b = pt.clone();
+        let single_ip = ops.single_shot_seal_ip(&m, pk, &info, &mut b, &aad, &mut ScriptRng::new(&k.ikm_e)).map(|(enc, t)| [enc, b.clone(), t].concat());
+        out.transitions += 4;
+        if norm(&composed) != norm(&single) {
+            out.fail(format!("single_shot_seal != setup_sender + seal for [{}]: composed {} single-shot {}", name, norm(&composed), norm(&single)));
+        }
+        if norm(&composed_ip) != norm(&single_ip) {
+            out.fail(format!("single_shot_seal_in_place_detached != setup_sender + seal_in_place_detached for [{}]: composed {} single-shot {}", name, norm(&composed_ip), norm(&single_ip)));
+        }
+        if expect_encap_err(name) && composed != Obs::Err(HpkeError::EncapError) {
+            out.fail(format!("setup_sender to [{}]: {} want Err(EncapError)", name, norm(&composed)));
+        }
+        if !expect_encap_err(name) && !c.suite.aead.can_seal() && !matches!(composed, Obs::Panic(_)) {
+            out.fail(format!("export-only suite: setup_sender + seal returned {} instead of panicking", norm(&composed)));
+        }
+        // ---- the four opening forms, with the same bytes as encapsulated key ----
+        let enc = if expect_encap_err(name) { pk.clone() } else { r1_setup_s(c.suite, &m, &k.pk_r, &info, &k.ikm_e).map(|x| x.0).unwrap_or_else(|| k.pk_s.clone()) };
+        for wire in [vec![0x5au8; nt + 9], vec![0u8; nt], vec![1u8; nt - 1], vec![]] {
+            let composed = match ops.setup_receiver(&m, &k.sk_r, &enc, &info) {
+                Obs::Ok(mut r) => r.open(&wire, &aad),
+                Obs::Err(e) => Obs::Err(e),
+                Obs::Pre(e) => Obs::Pre(e),
+                Obs::Panic(p) => Obs::Panic(p),
+            };
+            let single = ops.single_shot_open(&m, &k.sk_r, &enc, &info, &wire, &aad);
+            out.transitions += 2;
+            if norm(&composed) != norm(&single) {
+                out.fail(format!("single_shot_open != setup_receiver + open for [enc = {}; {} bytes]: composed {} single-shot {}", name, wire.len(), norm(&composed), norm(&single)));
+            }
+            if expect_encap_err(name) && composed != Obs::Err(HpkeError::DecapError) {
+                out.fail(format!("setup_receiver with [enc = {}]: {} want Err(DecapError)", name, norm(&composed)));
+            }
+            let ntr = c.suite.aead.nt();
+            if wire.len() >= ntr {
+                let (b0, t0) = wire.split_at(wire.len() - ntr);
+                let composed_ip = match ops.setup_receiver(&m, &k.sk_r, &enc, &info) {
+                    Obs::Ok(mut r) => {
+                        let mut b = b0.to_vec();
+                        r.open_ip(&mut b, &aad, t0).map(|_| b.clone())
+                    }
+                    Obs::Err(e) => Obs::Err(e),
+                    Obs::Pre(e) => Obs::Pre(e),
+                    Obs::Panic(p) => Obs::Panic(p),
+                };
+                let mut b = b0.to_vec();
+                let single_ip = ops.single_shot_open_ip(&m, &k.sk_r, &enc, &info, &mut b, &aad, t0).map(|_| b.clone());
+                out.transitions += 2;
+                if norm(&composed_ip) != norm(&single_ip) {
+                    out.fail(format!("single_shot_open_in_place_detached != setup_receiver + open_in_place_detached for [enc = {}; {} bytes]: composed {} single-shot {}", name, wire.len(), norm(&composed_ip), norm(&single_ip)));
+                }
+            }
         }
     }
 }
@@ -301,6 +416,9 @@ fn sequence_case(out: &mut CaseOut, c: &Case, ops: &dyn crate::suites::SuiteOps,
 /// allocating vs in-place forms on contexts at the last sequence number and after exhaustion: the two
 /// forms must agree on every delivery (and with R1 / the message limit)
 fn boundary_case(out: &mut CaseOut, _cfg: &Cfg, c: &Case, ops: &dyn crate::suites::SuiteOps, k: &Keys, m: &crate::suites::ModeSpec, info: &[u8]) {
+    if !crate::suites::HOOKS {
+        return;
+    }
     let nt = c.suite.aead.nt();
     let (enc, refctx) = match r1_setup_s(c.suite, m, &k.pk_r, info, &k.ikm_e) {
         Some(x) => x,
@@ -402,6 +520,24 @@ pub enum Case15 {
     /// the bundle's key and identifier are what enters the key schedule (vs R1), also with psk/psk_id
     /// of different lengths so that a swap is visible
     Schedule { suite: SuiteId, mode: Mode, psk_len: usize, psk_id_len: usize, tag: u64 },
+    /// ALL sequences of up to `depth` sessions that start with `first`, over an alphabet of modes and bundles whose
+    /// keys and identifiers are prefixes of one another, run one after the other on ONE thread with ONE suite:
+    /// what enters the key schedule is the bundle of THIS session (or the empty defaults), whatever came before
+    History { suite: SuiteId, first: u8, depth: u8 },
+}
+
+/// (mode, psk, psk_id) alphabet of `Case15::History`
+pub fn history_alphabet() -> Vec<(Mode, &'static [u8], &'static [u8])> {
+    vec![
+        (Mode::Base, b"", b""),
+        (Mode::Auth, b"", b""),
+        (Mode::Psk, b"0123456789abcdef0123456789abcdef-k1", b"tenant-7/2026-10"),
+        (Mode::Psk, b"0123456789abcdef0123456789abcdef-k1", b"tenant-7"),
+        (Mode::Psk, b"0123456789abcdef0123456789abcdef", b"tenant-7"),
+        (Mode::AuthPsk, b"0123456789abcdef0123456789abcdef-k1", b"tenant-7/2026-10"),
+        (Mode::Psk, b"", b""),
+        (Mode::AuthPsk, b"0123456789abcdef0123456789abcdef-k1", b"t"),
+    ]
 }
 
 pub struct C15;
@@ -412,10 +548,10 @@ impl Part for C15 {
         "E1-psk-bundle".into()
     }
     fn rule(&self) -> String {
-        "PskBundle::new for ALL (|psk|, |psk_id|) in [0, L]^2 x fills: Ok iff both empty or both non-empty, else exactly InvalidPskBundle (observed through setup in Psk mode, which is how a bundle is used); key-schedule use: Psk/AuthPsk with psk != psk_id and different lengths vs R1 (a swap, a truncation or a dropped id changes every output), Base/Auth vs R1 with the empty defaults even when PSK bytes are lying around; non-trivial = every case".into()
+        "PskBundle::new for ALL (|psk|, |psk_id|) in [0, L]^2 x fills: Ok iff both empty or both non-empty, else exactly InvalidPskBundle (observed through setup in Psk mode, which is how a bundle is used); key-schedule use: Psk/AuthPsk with psk != psk_id and different lengths vs R1 (a swap, a truncation or a dropped id changes every output), Base/Auth vs R1 with the empty defaults even when PSK bytes are lying around; session HISTORIES: every sequence of sessions over an alphabet of modes and bundles with prefix-related keys and identifiers (and the empty bundle), run on one thread with one suite, the last session's sender and receiver exports compared with R1; non-trivial = every case".into()
     }
     fn bound(&self, cfg: &Cfg) -> String {
-        if cfg.tier.thorough() { "L = 80 x 3 fills (19683 pairs); 48 suites x 4 modes x 6 (psk, psk_id) length pairs".into() } else { "L = 40 x 2 fills (3362 pairs); 12 suites x 4 modes x 4 length pairs".into() }
+        if cfg.tier.thorough() { "L = 80 x 3 fills (19683 pairs); 48 suites x 4 modes x 6 (psk, psk_id) length pairs; all session histories of length <= 3 (4 for 3 suites) over an 8-letter mode/bundle alphabet for 24 suites".into() } else { "L = 40 x 2 fills (3362 pairs); 12 suites x 4 modes x 4 length pairs; all session histories of length <= 3 over an 8-letter mode/bundle alphabet for 3 suites".into() }
     }
     fn enumerate(&self, cfg: &Cfg) -> Vec<Case15> {
         let t = cfg.tier.thorough();
@@ -440,6 +576,15 @@ impl Part for C15 {
                 for (psk_len, psk_id_len) in shapes {
                     tag += 1;
                     v.push(Case15::Schedule { suite, mode, psk_len, psk_id_len, tag });
+                }
+            }
+        }
+        for suite in crate::suites::all_suites() {
+            let quick_set = matches!((suite.kem, suite.kdf, suite.aead), (Kem::X25519, crate::refmodel::Kdf::Sha256, Aead::ChaCha20Poly1305) | (Kem::P256, crate::refmodel::Kdf::Sha512, Aead::Aes128Gcm) | (Kem::X25519, crate::refmodel::Kdf::Sha384, Aead::ExportOnly));
+            let thorough_set = matches!(suite.kem, Kem::X25519 | Kem::P256) && suite.aead != Aead::Aes256Gcm;
+            if quick_set || (t && thorough_set) {
+                for first in 0..history_alphabet().len() as u8 {
+                    v.push(Case15::History { suite, first, depth: if t && quick_set { 4 } else { 3 } });
                 }
             }
         }
@@ -489,6 +634,65 @@ impl Part for C15 {
                         let ok = if valid { got == Obs::Ok(()) } else { got == Obs::Pre(HpkeError::InvalidPskBundle) };
                         if !ok {
                             out.fail(format!("PskBundle::new(|psk|={}, |psk_id|={}) with byte value {:#04x} (variant {}): got {} want {}", pl, il, b, variant, got.class(), if valid { "Ok" } else { "Err(InvalidPskBundle)" }));
+                        }
+                    }
+                }
+            }
+            Case15::History { suite, first, depth } => {
+                out.outcome = "history".into();
+                let ops = suite_ops(*suite);
+                let alpha = history_alphabet();
+                let k = keys(suite.kem, 15_700, cfg.seed);
+                let info = bytes(Fill::Mix, 6, 10, cfg.seed);
+                // R1's exports per letter (R1 has no state at all)
+                let mut refs = vec![];
+                for (mode, psk, psk_id) in &alpha {
+                    let m = mode_spec(*mode, &k, psk, psk_id);
+                    match r1_setup_s(*suite, &m, &k.pk_r, &info, &k.ikm_e) {
+                        Some((enc, ctx)) => refs.push((m, enc, ctx.export(b"c15h", 40).unwrap())),
+                        None => {
+                            out.fail_machinery("R1 setup failed");
+                            return out;
+                        }
+                    }
+                }
+                let n = alpha.len();
+                let mut stack: Vec<Vec<u8>> = vec![vec![*first]];
+                while let Some(path) = stack.pop() {
+                    // run the whole path from scratch: the earlier sessions ARE the history
+                    for (i, &l) in path.iter().enumerate() {
+                        let (m, enc, want) = &refs[l as usize];
+                        let last = i + 1 == path.len();
+                        let s = ops.setup_sender(m, &k.pk_r, &info, &mut ScriptRng::new(&k.ikm_e));
+                        let r = ops.setup_receiver(m, &k.sk_r, enc, &info);
+                        if !last {
+                            continue; // compared when this prefix was the whole path
+                        }
+                        out.transitions += 2;
+                        out.states += 1;
+                        let names: Vec<String> = path.iter().map(|x| format!("{:?}(|psk|={},id={:?})", alpha[*x as usize].0, alpha[*x as usize].1.len(), String::from_utf8_lossy(alpha[*x as usize].2))).collect();
+                        match s {
+                            Obs::Ok((e, sc)) => {
+                                if e != *enc || sc.export(b"c15h", 40) != Obs::Ok(want.clone()) {
+                                    out.fail(format!("sessions [{}] one after the other on one thread: the LAST sender's export differs from R1 (what entered the key schedule is not this session's bundle / the empty defaults)", names.join(" ; ")));
+                                }
+                            }
+                            o => out.fail(format!("sessions [{}]: last setup_sender: {}", names.join(" ; "), o.map(|_| ()).class())),
+                        }
+                        match r {
+                            Obs::Ok(rc) => {
+                                if rc.export(b"c15h", 40) != Obs::Ok(want.clone()) {
+                                    out.fail(format!("sessions [{}] one after the other on one thread: the LAST receiver's export differs from R1", names.join(" ; ")));
+                                }
+                            }
+                            o => out.fail(format!("sessions [{}]: last setup_receiver: {}", names.join(" ; "), o.map(|_| ()).class())),
+                        }
+                    }
+                    if path.len() < *depth as usize && out.mismatches.len() < 10 {
+                        for l in 0..n as u8 {
+                            let mut q = path.clone();
+                            q.push(l);
+                            stack.push(q);
                         }
                     }
                 }
